@@ -480,5 +480,5 @@ func (p *c01) Assumptions() []string {
 }
 
 func (p *c01) Floors(tier string) map[string]int64 {
-	return map[string]int64{"lex_steps": 1000, "parse_steps": 1000, "distinct_nontrivial": 200}
+	return map[string]int64{"lex_steps": 1000, "parse_steps": 1000, "distinct_nontrivial": 200, "class:chain/tree": 10, "class:ladder/tree": 10, "class:stmt-seq/tree": 1000, "class:fragseq/tree": 100, "class:allbytes/tree": 100}
 }
